@@ -134,6 +134,8 @@ class GeomEval:
     def binop(self, n):
         a, b = self.ev(n.left), self.ev(n.right)
         op = type(n.op)
+        if op is ast.MatMult and isinstance(a, M) and isinstance(b, M):
+            return a.dot(b)  # (the loader spells x.dot(y) as x @ y)
         # index arithmetic
         if isinstance(a, Idx) or isinstance(b, Idx):
             if op is ast.Mult and isinstance(a, V) and isinstance(b, Idx):
